@@ -58,6 +58,9 @@ def cases(draw):
     case = {"form": form, "cw": cw, "sx": sx, "sy": sy, "ex": ex, "ey": ey, "full": False,
             "e2e": draw(st.sampled_from(["none", "deep", "clear"])), "t": draw(st.floats(0.2, 0.8)),
             "inch": draw(st.integers(0, 3)) == 0}
+    if draw(st.integers(0, 2)) == 0:
+        # the same handlers object has planned an arc with the identical arguments before, from another start point
+        case["prior_t"] = draw(st.floats(0.3, 6.0))
     if form == "IJ":
         case["i"], case["j"] = cx - sx, cy - sy
     else:
@@ -67,6 +70,11 @@ def cases(draw):
 
 def strategy(tier):
     return cases()
+
+
+def fmt6(v):
+    t = ("%.6f" % v).rstrip("0").rstrip(".")
+    return t if t not in ("", "-", "-0") else "0"
 
 
 def angle_diff(a, b):
@@ -96,6 +104,23 @@ def run_case(case, strict=False):  # noqa: C901  pylint: disable=too-many-branch
     flt.gcode("G1 X%r Y%r Z0.2 F3000" % (case["sx"], case["sy"]))
     sx, sy, ex, ey, cw = case["sx"], case["sy"], case["ex"], case["ey"], case["cw"]
     h = flt.handlers
+    if case.get("prior_t") is not None:
+        # history: identical arguments, different start (the end point lies on the circle about that start + (i,j) as well)
+        cl.add("same_arguments_planned_before")
+        try:
+            if case["form"] == "R":
+                flt.gcode("G1 X%s Y%s" % (fmt6(sx + 3 * math.cos(case["prior_t"])), fmt6(sy + 3 * math.sin(case["prior_t"]))))
+                pi_, pj_ = h.computeArcCenterOffsets(ex, ey, case["R"], cw)
+                if pi_ or pj_:
+                    h.planArc(ex, ey, pi_, pj_, cw)
+            else:
+                rho = math.hypot(case["i"], case["j"])
+                a_ = math.atan2(sy + case["j"] - ey, sx + case["i"] - ex) + case["prior_t"]
+                flt.gcode("G1 X%s Y%s" % (fmt6(ex + rho * math.cos(a_) - case["i"]), fmt6(ey + rho * math.sin(a_) - case["j"])))
+                h.planArc(ex, ey, case["i"], case["j"], cw)
+        except Exception:  # pylint: disable=broad-except
+            pass
+        flt.gcode("G1 X%r Y%r" % (sx, sy))
     diagonal = (sx != ex) and (sy != ey)
     if diagonal:
         cl.add("diagonal_chord")
